@@ -17,11 +17,14 @@ NoPanic == T.panic = ""
 \* text outside expressions passes through unchanged, '@@' yields '@', other '@' stay literal
 \* (expect comes from the reference scan in Scanner.tla: body text with @@ unescaped, an unterminated "@(" and the rest verbatim)
 BodyFaithful == T.kind = "body" /\ T.onlybody /\ NoPanic => T.out = T.expect
+\* a rewrite of the template that changes no expression (refactor.Template with the identity, as migrations use it)
+\* leaves what the template evaluates to unchanged: an escaped @@ stays an escaped @@
+RewriteFaithful == T.kind = "body" /\ NoPanic /\ T.rewritten => T.rewout = T.out
 \* every string, written as a quoted literal, evaluates to exactly that string
 LiteralOK    == T.kind = "literal" /\ NoPanic => T.out1 = T.s
 \* ... also next to another literal and surrounding text: scanner and lexer agree where things end
 NeighbourOK  == T.kind = "literal" /\ NoPanic => T.out2 = T.exp2
-InvC12 == /\ Check("C12.BodyFaithful", BodyFaithful) /\ Check("C12.LiteralOK", LiteralOK)
+InvC12 == /\ Check("C12.BodyFaithful", BodyFaithful) /\ Check("C12.RewriteFaithful", RewriteFaithful) /\ Check("C12.LiteralOK", LiteralOK)
           /\ Check("C12.NeighbourOK", NeighbourOK) /\ Check("C12.NoPanic", NoPanic)
 Accepted == TLCGet("stats").diameter = Len(Trace)
 =============================================================================
